@@ -41,6 +41,11 @@ if int(rnd) >= 6:
               "steps, many epochs or batches, large batch sizes (e.g. a lookup table keyed by size, an algorithm switch above a size threshold, an integer dtype that overflows, a quadratic "
               "buffer, a step cap, a tolerance that only bites for long sums); (b) a rare data-dependent branch (exact ties, a degenerate sub-case, an instance feature that the default "
               "generator produces in < 5% of instances); (c) two cooperating edits in different files that are each harmless alone. Say in notes.md which scale / frequency is needed.")
+if int(rnd) >= 7:
+    extra += ("\n\nFor THIS round (it overrides the scale preference above): read the property statement clause by clause and compare with the list of collected changes. Pick clauses, "
+              "environments, model classes or quantifier dimensions of the statement that NONE of the collected changes touches, and break exactly those. If every clause is touched, pick "
+              "the environment / model / option combination named or implied by the statement that is touched least. State in notes.md which clause / combination you targeted and why "
+              "you believe it is untouched.")
 extra += f"\n\nHousekeeping: test runs create large 'data/' and 'lightning_logs/' directories inside your worktree; delete both (rm -rf {wt}/data {wt}/lightning_logs) before you finish. Use at most 4 CPU cores (e.g. OMP_NUM_THREADS=2). The test suite takes 5-10 minutes; run it in the background with output to a file and a generous timeout rather than blocking on it. Do NOT use 'git stash' (shared between worktrees of other people working in parallel): keep your changes as patch files and use 'git apply' / 'git apply -R' / 'git checkout -- rl4co'. Do not use pkill/killall with patterns that could match other people's processes.\n"
 out = f"/tmp/seed{rnd}-prompt-{pid}.txt"
 open(out, "w").write(base + extra)
